@@ -22,19 +22,19 @@ checks = {
  "C19": ("simmon", "exploration", "3 C19", "runtime monitoring: envelope assertion on every layer temperature every day + diffusion-number invariant",
    "Temperatures stay inside the running envelope of imposed boundary values; diffusion number <= 1/2 on every layer-day observed; density classes and measured densities from peat (0.15 g/cm3) to dense till (2.44 g/cm3 with the pore volume that goes with it)."),
  "C12": ("fnmon", "exploration", "3 C12", "runtime monitoring: exhaustive execution of the real date conversion functions against a calendar oracle (Go time package)",
-   "Exhaustive over the stated date range: all 72,684 dates x 4 formats x 4 separator variants x admissible century splits (each text also with blanks / tabs around it and with a blank-padded middle field; half of the format x split pairs and all extreme splits through the converter the real configuration reader builds), text->number->text identity, consecutive numbering, day-of-year, leap years, inverse function; the long-lived converters of both directions are also asked backwards, in zig-zag around every month change and in random jumps (the answer may not depend on the call history)."),
+   "Exhaustive over the stated date range: all 72,684 dates x 4 formats x 4 separator variants x admissible century splits (each text also with blanks / tabs around it and with a blank-padded middle field; half of the format x split pairs and all extreme splits through the converter the real configuration reader builds), text->number->text identity, consecutive numbering, day-of-year, leap years, inverse function; the long-lived converters of both directions are also asked backwards, in zig-zag around every month change and in random jumps, and every pair of dates up to 45 days apart that straddles a month or year change is asked back to back in both orders (the answer may not depend on the call history)."),
  "C17": ("fnmon", "exploration", "3 C17", "runtime monitoring: the real calcHermesBatch and hermes2go binaries executed for every (lines, nodes, encoding) triple up to the bound; executed log ids recorded and checked for exactly-once",
    "Exhaustive to the bound (quick L<=24,K<=26; thorough L<=60,K<=64; nine file shapes: LF / CRLF, blank lines, no final newline, one line of 5 kB / 40 kB, line ends on 32 KiB ... 256 KiB block boundaries; plus four files of 4 MiB (thorough 16 MiB) with line ends on / just before every power-of-two boundary from 4 KiB up, their 3x multiples and every whole MiB, partitioned for ten node counts, the ranges around the boundary lines executed): ranges contiguous/disjoint/covering, count equals -size, every range executed by hermes2go -lines, each line id executed exactly once."),
  "C20": ("simmon", "exploration", "3 C20", "runtime monitoring: groundwater level read at the probe on every simulated day compared with an independent interpolation / sinusoid; dense calls of the public interpolation function",
    "Level of every simulated day equals series value / linear interpolation / nearest end value, or the configured sinusoid within [min,max]; the level lies between its two neighbouring series values exactly (no tolerance: a plateau is returned as it is); series selected by gwId= among decoy rows, rows of other soils whose id extends / is extended by the simulated id; levels of 0 dm; series entries aligned with the edges of the simulated period; function-level: nodes, neighbours of nodes, outside span, random interior days of generated series, queried in random order."),
  "C05": ("simmon", "exploration", "3 C05", "runtime monitoring: the result files written by real generated runs are parsed and compared record by record with an independent calendar / rotation oracle",
-   "Daily file: exactly the expected days (start..end, interval k, leap days) in order; yearly file: one record per annual output date inside the period; crop file: one record per harvested rotation entry in order; every record has the configured number of fields (fixed width: the line must be cut into exactly one cell per column, each at least as wide as configured and followed by a fill character); both styles; random output configurations (date column anywhere, leading empty text fields, separators, alignments, NA values, 0-2 header lines, calendar-edge annual dates). One open finding (end-date extension)."),
+   "Daily file: exactly the expected days (start..end, interval k, leap days) in order; yearly file: one record per annual output date inside the period; crop file: one record per harvested rotation entry in order; every record has the configured number of fields (fixed width: the line must be cut into exactly one cell per column, each at least as wide as configured and followed by a fill character); both styles; random output configurations (columns whose index lies outside the array or slice they name, date column anywhere, leading empty text fields, separators, alignments, NA values, 0-2 header lines, calendar-edge annual dates). One open finding (end-date extension)."),
  "C14": ("simmon", "exploration", "3 C14", "runtime monitoring: probe-and-abort read-back of the effective configuration from the real reader for generated file/line/default combinations, plus full runs with decoy file values",
    "Every scalar key (numeric, text, on/off, enum) in random subsets of file and line, numbers on the line also zero-padded / signed / in exponent form / with bare decimal point, unknown keys, missing file, two argument orders per case: effective value = line, else file, else default; full runs confirm the line value in run state and result files; the input-format keys go on the line over opposite values in the file, half of the full runs with fileExtension=, and every full run is compared byte for byte with a reference run that has the values in the file, nothing on the line and standard file names."),
  "C04": ("simmon", "exploration", "3 C04", "runtime monitoring: on every simulated day the weather arrays the model uses are compared at the probe with the generator's truth table for that calendar date; fault cases (incomplete weather) must end with an error",
    "Three layouts, leap years, year changes, series starting early, sentinels incl. year boundaries, sunshine gaps of two or three days (the marker itself must never be consumed), station-line altitude / CO2, wind floor as consumed by Penman-Monteith, monthly precipitation correction by the calendar month of the date (leap years), header-driven CSV files with permuted / unknown / alias-named columns; incomplete inputs (ends early, gap, missing year, starts late): ten open findings where the readers' errors are dropped, one open finding for a sentinel at the edge of the loaded year range."),
  "C10": ("simmon", "exploration", "3 C10", "runtime monitoring: exactly-once / ordering checker over the management event log of real runs against a reference reader of the generated schedule, plus state-jump assertions with amounts from the fertiliser table",
-   "Fertilisation, tillage, irrigation, sowing, harvest: each scheduled action inside the period appears exactly once, in order, on its due day; pre-start actions ignored; irrigation water and N enter that day's infiltration / top layer; fertiliser pools change by the table amounts (organic part taken before the volatilisation loss); 20% of cases with automatic management switches; fertiliser tables of the project's own (longer names, redefined shipped rows); 10 % of the cases run in a session that has already run a sister project with another fertiliser table."),
+   "Fertilisation, tillage, irrigation, sowing, harvest: each scheduled action inside the period appears exactly once, in order, on its due day; pre-start actions ignored; irrigation water and N enter that day's infiltration / top layer, the water sub-steps of an irrigation day hand over the whole surface flux (basin irrigations of 100-250 mm included); fertiliser pools change by the table amounts (organic part taken before the volatilisation loss); 20% of cases with automatic management switches; fertiliser tables of the project's own (longer names, redefined shipped rows); 10 % of the cases run in a session that has already run a sister project with another fertiliser table."),
  "C16": ("simmon", "exploration", "3 C16", "runtime monitoring: sowing / harvest days from the management event log and every automatic irrigation / N application observed at the probes are checked against the generated rotation and automatic-management table",
    "Rotation order, crop code and harvest year of every crop record; fixed dates hit exactly; automatic sowing inside its window and after the previous harvest, harvest not after the latest date, irrigation only in the stage window and not above the daily maximum, automatic N >= 0; all 16 switch combinations; permanent crops followed by themselves; every fourth case rewritten around the harvest day observed in a probe run (fixed sowing right after a triggered harvest); table rows without sowing window (0000) or without latest harvest date (0000)."),
  "C13": ("pairmon", "exploration", "3 C13", "runtime monitoring: differential paired runs of the real model on one generated project written in two encodings; result files compared byte for byte",
